@@ -23,7 +23,14 @@ def gen_expr(rng, syms, depth, allow_div=True):
     a = gen_expr(rng, syms, depth - 1)
     b = gen_expr(rng, syms, depth - 1)
     if o == "f":
-        return E.fun("f", a) if rng.random() < 0.7 else E.fun("g", a, b)   # f is unary, g binary, everywhere
+        r = rng.random()    # f is unary, g binary, everywhere; nested calls of the same function are common
+        if r < 0.5:
+            return E.fun("f", a)
+        if r < 0.7:
+            return E.fun("f", E.fun("f", a))
+        if r < 0.9:
+            return E.fun("g", a, b)
+        return E.fun("g", E.fun("g", a, b), a)
     if o == "div":
         return E.op("div", a, E.num(rng.choice([2, 3, 4]))) if allow_div else E.op("add", a, b)
     if o == "pow":
@@ -406,3 +413,84 @@ def make_points(rng, names, n=4):
 
 def points_to_coq(points):
     return E.coq_list([E.coq_list([f"({E.coq_string(k)}, {E.coq_q(v[0], v[1])})" for k, v in sorted(p.items())]) for p in points])
+
+
+# ------------------------------------------------------------------ renaming one scope (C03)
+
+def rename_expr(e, pi, bound=frozenset()):
+    t = e[0]
+    if t == "n":
+        return e
+    if t == "s":
+        return ["s", pi.get(e[1], e[1])] if e[1] not in bound else e
+    if t in ("o", "f"):
+        return [t, e[1], [rename_expr(a, pi, bound) for a in e[2]]]
+    return ["b", e[1], e[2], rename_expr(e[3], pi, bound | {e[2]}), rename_expr(e[4], pi, bound), rename_expr(e[5], pi, bound)]
+
+
+def bound_names(node):
+    s = list(node["input_params"]) + [l[0] for l in node["local_variables"]]
+    for p in node["ports"]:
+        if p["direction"] != "output" and p["size"] is not None and p["size"][0] == "s" and not p["size"][1].startswith("#"):
+            s.append(p["size"][1])
+    out = []
+    for x in s:
+        if x not in out:
+            out.append(x)
+    return out
+
+
+def rename_seq(seq, pi):
+    k = seq["kind"]
+    s = dict(seq)
+    if k == "constant":
+        s["multiplier"] = rename_expr(seq["multiplier"], pi)
+    elif k == "arithmetic":
+        s["initial_term"] = rename_expr(seq["initial_term"], pi)
+        s["difference"] = rename_expr(seq["difference"], pi)
+    elif k == "geometric":
+        s["ratio"] = rename_expr(seq["ratio"], pi)
+    elif k == "closed_form":
+        b = frozenset([seq["num_terms_symbol"]])
+        s["sum"] = None if seq.get("sum") is None else rename_expr(seq["sum"], pi, b)
+        s["prod"] = None if seq.get("prod") is None else rename_expr(seq["prod"], pi, b)
+    else:
+        s["term_expression"] = rename_expr(seq["term_expression"], pi, frozenset([seq["iterator_symbol"]]))
+    return s
+
+
+def rename_node_scope(node, pi):
+    n = dict(node)
+    n["input_params"] = [pi.get(x, x) for x in node["input_params"]]
+    n["local_variables"] = [[pi.get(k, k), rename_expr(v, pi)] for k, v in node["local_variables"]]
+    n["ports"] = [dict(p, size=None if p["size"] is None else rename_expr(p["size"], pi)) for p in node["ports"]]
+    n["resources"] = [dict(r, value=rename_expr(r["value"], pi)) for r in node["resources"]]
+    n["linked_params"] = [[pi.get(s, s), ts] for s, ts in node["linked_params"]]
+    if node.get("repetition") is not None:
+        n["repetition"] = {"count": rename_expr(node["repetition"]["count"], pi), "sequence": rename_seq(node["repetition"]["sequence"], pi)}
+    return n
+
+
+def rename_at(root, path, pi):
+    """Rename the scope of the node reached by `path` (list of child names); fix the links that target its parameters."""
+    def go(node, rest, trail):
+        if not rest:
+            return rename_node_scope(node, pi)
+        n = dict(node)
+        rel = ".".join(rest)
+        n["linked_params"] = [[s, [[t[0], pi.get(t[1], t[1])] if t[0] == rel else t for t in ts]] for s, ts in node["linked_params"]]
+        n["children"] = [go(c, rest[1:], trail + [c["name"]]) if c["name"] == rest[0] else c for c in node["children"]]
+        return n
+    return go(root, list(path), [])
+
+
+def all_paths(r, prefix=()):
+    yield list(prefix)
+    for c in r["children"]:
+        yield from all_paths(c, prefix + (c["name"],))
+
+
+def node_at(r, path):
+    for p in path:
+        r = [c for c in r["children"] if c["name"] == p][0]
+    return r
